@@ -124,8 +124,8 @@ class Facade:
     # ---- dtype -----------------------------------------------------
     def dtype(self, spec, *a, **k):
         if OBJECT_CREATION and Engine.cur is not None and isinstance(spec, list):
-            spec = [(n, "O") if not isinstance(t, np.dtype) or t.kind in "fiu" else (n, t) for n, t in
-                    [(x[0], np.dtype(x[1])) for x in spec]]
+            # float fields hold symbolic reals; integer fields (patch ids) keep their machine type incl. wrap-around
+            spec = [(n, "O") if t.kind == "f" else (n, t) for n, t in [(x[0], np.dtype(x[1])) for x in spec]]
         return np.dtype(spec, *a, **k)
 
     # ---- creation --------------------------------------------------
@@ -139,7 +139,7 @@ class Facade:
             return a.view(SArr)
         if Engine.cur is not None and isinstance(dtype, (list, np.dtype)) and np.dtype(dtype).names:
             dt = np.dtype(dtype)
-            spec = [(n, "O") for n in dt.names]
+            spec = [(n, "O") if dt[n].kind == "f" else (n, dt[n]) for n in dt.names]
             return np.empty(shape, dtype=spec).view(SArr)
         return fn(shape, dtype=dtype) if fill is None else np.full(shape, fill, dtype=dtype)
 
